@@ -23,6 +23,10 @@ pub struct Scenario {
     /// all timestamps are offset by this (negative, near the ends of the i64 range, ...)
     #[serde(default)]
     pub time_base: i64,
+    /// later rounds carry *older* timestamps than earlier ones (a sensor log replayed backwards, a clock stepped back): what
+    /// a slot holds is the last value written, whatever its stamp
+    #[serde(default)]
+    pub backwards: bool,
 }
 static HEADROOM: Headroom = Headroom::new();
 
@@ -68,7 +72,7 @@ pub fn check(s: &Scenario) -> CheckResult {
     let mut conflict_round = false;
     let mut sig: Vec<u64> = vec![s.dev.code() as u64];
     for (ri, round) in s.rounds.iter().enumerate() {
-        let base = s.time_base + (ri as i64 + 1) * 1000;
+        let base = s.time_base + if s.backwards { (s.rounds.len() - ri) as i64 } else { ri as i64 + 1 } * 1000;
         for i in 0..n {
             let f = round.get(i).copied().unwrap_or(Feed { own: None, partner: None });
             if let Some((v, dt)) = f.own {
@@ -299,15 +303,15 @@ pub fn dev_strategy() -> BoxedStrategy<DevSpec> {
 pub struct C08;
 impl Property for C08 {
     const ID: &'static str = "C08";
-    const RULE: &'static str = "devices: Invert, GearTrain (ratio in +-[1e-2,1e2] or tooth lists of length 2..6), Axle<0..6>, Differential x 4 distrust modes; each device terminal optionally connected to an external terminal; 1..8 rounds in which every device terminal independently receives a new finite state through its own slot, through the external terminal, through both or not at all (timestamps fresh per round with random offsets), then update(). Oracle per update, relative to the states read at the terminals just before it: least-squares projection in f64 with a running f32 error bound (x4), exact formulas for one-sided propagation and recomputed differential branches, newest contributing timestamp, constraint re-checked on the written own slots independently of the projection, nothing written when the statement says so (no data / untrusted data missing; the informed side of a one-sided update is left alone). Non-trivial = a round in which >= 2 terminals hold differing data that violate the constraint; distinct = (device, per-terminal feed pattern per round).";
+    const RULE: &'static str = "devices: Invert, GearTrain (ratio in +-[1e-2,1e2] or tooth lists of length 2..6), Axle<0..6>, Differential x 4 distrust modes; each device terminal optionally connected to an external terminal; 1..8 rounds in which every device terminal independently receives a new finite state through its own slot, through the external terminal, through both or not at all (timestamps fresh per round with random offsets; in a quarter of the scenarios later rounds carry older timestamps), then update(). Oracle per update, relative to the states read at the terminals just before it: least-squares projection in f64 with a running f32 error bound (x4), exact formulas for one-sided propagation and recomputed differential branches, newest contributing timestamp, constraint re-checked on the written own slots independently of the projection, nothing written when the statement says so (no data / untrusted data missing; the informed side of a one-sided update is left alone). Non-trivial = a round in which >= 2 terminals hold differing data that violate the constraint; distinct = (device, per-terminal feed pattern per round).";
     type Scenario = Scenario;
     fn strategy(_tier: Tier) -> BoxedStrategy<Scenario> {
         dev_strategy()
             .prop_flat_map(|dev| {
                 let n = dev.terminals();
-                (Just(dev), proptest::collection::vec(proptest::bool::weighted(0.6), n..=n), proptest::collection::vec(proptest::collection::vec(feed(), n..=n), 1..=8), time_base())
+                (Just(dev), proptest::collection::vec(proptest::bool::weighted(0.6), n..=n), proptest::collection::vec(proptest::collection::vec(feed(), n..=n), 1..=8), time_base(), proptest::bool::weighted(0.25))
             })
-            .prop_map(|(dev, linked, rounds, time_base)| Scenario { dev, linked, rounds, time_base })
+            .prop_map(|(dev, linked, rounds, time_base, backwards)| Scenario { dev, linked, rounds, time_base, backwards })
             .boxed()
     }
     fn cases(tier: Tier) -> u32 {
@@ -330,8 +334,8 @@ impl Property for C08 {
                         Feed { own: if code & 1 != 0 { Some((v, (i * 7) as u8)) } else { None }, partner: if code & 2 != 0 { Some((w, (20 - i * 3) as u8)) } else { None } }
                     })
                     .collect();
-                sink(Scenario { dev: dev.clone(), linked: vec![true; k], rounds: vec![round.clone(), round.clone()], time_base: 0 });
-                sink(Scenario { dev: dev.clone(), linked: vec![true; k], rounds: vec![round.clone(), round], time_base: -5_000 });
+                sink(Scenario { dev: dev.clone(), linked: vec![true; k], rounds: vec![round.clone(), round.clone()], time_base: 0, backwards: false });
+                sink(Scenario { dev: dev.clone(), linked: vec![true; k], rounds: vec![round.clone(), round], time_base: -5_000, backwards: true });
                 n += 1;
                 n += 1;
             }
